@@ -10,9 +10,11 @@ cd "$wt"
 res() { echo "$name: $1"; }
 if ! git apply "$d/patch.diff"; then res "PATCH-DOES-NOT-APPLY"; cd /; git -C /repo worktree remove --force "$wt"; exit 1; fi
 lib=$(cargo test --offline --lib 2>&1 | grep "test result" | head -1)
+# demos that need a TLS peer use the openssl crate (already in the lock file) as a dev-dependency
+printf '\n[dev-dependencies]\nopenssl = "0.10"\n' >> Cargo.toml
 mkdir -p tests; cp "$d/demo.rs" tests/demo.rs
 with=$(cargo test --offline --features verif-hooks,integration --test demo 2>&1 | grep "test result" | head -1)
-git checkout -q -- src Cargo.toml 2>/dev/null; git checkout -q -- . 2>/dev/null
+git checkout -q -- src 2>/dev/null
 mkdir -p tests; cp "$d/demo.rs" tests/demo.rs
 without=$(cargo test --offline --features verif-hooks,integration --test demo 2>&1 | grep "test result" | head -1)
 cd /; git -C /repo worktree remove --force "$wt"
